@@ -211,6 +211,8 @@ def run(ck):
                 n_sites += check_calls(ck, repo, m, outs, "mode=%s fluxes %s" % (mode, "given" if fl == "notnone" else "None"))
     # F4/F5 on curve and process metrics
     check_metrics(ck, repo)
+    # F2 package-wide: name coherence of positional arguments at every resolved call site
+    name_coherence(ck, repo)
     ck.analysed["call_sites"] = n_sites
     from ..purity import purity
     purity(ck, repo, [repo.find_function(x) for x in simple] + process_functions(repo) + [repo.find_function("Pervaporation.non_ideal_diffusion_curve"),
@@ -305,3 +307,46 @@ def check_metrics(ck, repo):
             t = o.value.elem.fields.get("type") if isinstance(o.value.elem, ObjV) else None
             ok = p is not None and p == j0 / (j0 + j1) and isinstance(t, StrV) and t.s == "weight"
         ck.ob("F4", f.qualname, "curve permeate composition == flux1/(flux1+flux2), as a mass fraction", f.loc(), ok)
+
+
+
+def name_coherence(ck, repo):
+    """A positional argument that is a bare name equal to a parameter name of the (uniquely resolved) callee must land on
+    that parameter; and no positional argument may land on a parameter whose name is another argument's keyword."""
+    from ..callgraph import CallGraph, fkey
+    from ..structural import type_env
+    n_sites = 0
+    for f in repo.all_functions():
+        env = type_env(repo, f)
+        for n in ast.walk(f.node):
+            if not isinstance(n, ast.Call) or not n.args:
+                continue
+            c = env.resolve_callee(n)
+            params = None
+            cname = None
+            if isinstance(c, FuncInfo):
+                params = list(c.params)
+                cname = c.qualname
+                if c.cls is not None and not c.is_staticmethod and params:
+                    # bound call (obj.m(...) / cls.m(...)): self/cls is not passed positionally
+                    if isinstance(n.func, ast.Attribute):
+                        recv_t = env.type_of(n.func.value)
+                        if not (recv_t.kind == "type" and not c.is_classmethod):
+                            params = params[1:]
+                    else:
+                        params = params[1:]
+            elif isinstance(c, ClassInfo) and c.is_attrs:
+                params = [fl.name for fl in c.fields]
+                cname = c.name
+            if not params:
+                continue
+            n_sites += 1
+            for i, a in enumerate(n.args):
+                if isinstance(a, ast.Starred) or i >= len(params):
+                    break
+                if isinstance(a, ast.Name) and a.id in params and params[i] != a.id:
+                    ck.ob("F2", f.qualname, "positional argument %r of the call of %s lands on the parameter of that name" % (a.id, cname),
+                          f.loc(n), False, "it is bound to parameter %r (position %d); the callee also has a parameter %r" % (params[i], i + 1, a.id))
+    ck.ob("F2", "package", "name coherence of positional arguments at every resolved call site", "pyvaporation/", True,
+          "%d call sites with positional arguments checked" % n_sites)
+    ck.floor("call sites with positional arguments", n_sites, 100)
